@@ -7,7 +7,7 @@ Driver for C15. Case line:
        <nPre> {<key> <n> <val>*}*   (headers an outer middleware set before the chain reached the compression middleware)
        <nSniff> {<prefix> <type>}* <nOps> {op}*  =>  <obs without middleware> <obs with middleware>
   op  ::= H <key> <n> <val>* | D <key> | W <code> | B <bytes> | F | C <n> <bytes>* | X
-  obs ::= P | E | R <status> <nh> {<key> <n> <val>*}* (0 | 1 <decoded body>) <nOuts> {<flag> <n> <err>}*
+  obs ::= P | E | R <status> <nh> {<key> <n> <val>*}* <ntrailers> {<key> <n> <val>*}* <wire body longer than 2048: 0|1> (0 | 1 <decoded body>) <nOuts> {<flag> <n> <err>}*
   bytes ::= h:<hex> | z:<seg>.<seg>…   with seg ::= <hex> | <hexbyte>*<count>
 `A` selects the model of the code as shipped, `N` the model of the code as it is now.
 -/
@@ -52,6 +52,7 @@ def pErr : P Err := do
 structure ObsR where
   obs : Obs
   outs : List OutObs
+  wireBig : Bool
 
 /-- `none` = the exchange ended in a panic / torn-down connection -/
 def pObs : P (Option ObsR) := do
@@ -60,9 +61,11 @@ def pObs : P (Option ObsR) := do
   else if k == "R" then do
     let st ← nat
     let hs ← list (do let key ← str; let vs ← list str; pure (key, vs))
+    let ts ← list (do let key ← str; let vs ← list str; pure (key, vs))
+    let wb ← bool
     let dec ← opt pBytes
     let outs ← list (do let f ← nat; let n ← nat; let e ← pErr; pure (⟨f, n, e⟩ : OutObs))
-    pure (some ⟨⟨st, hs, dec⟩, outs⟩)
+    pure (some ⟨⟨st, hs, ts, dec⟩, outs, wb⟩)
   else failure
 
 structure Case where
@@ -107,19 +110,21 @@ def outsMatch : List WOut → List OutObs → Bool
       | _ => (m.err == .ok) == (o.err == .ok)) && outsMatch ms os
   | _, _ => false
 
-/-- a key with no values produces no header line -/
-def lines (h : Hdrs) : Hdrs := h.filter (fun kv => !kv.2.isEmpty)
+/-- a key with no values produces no header line; the client moves the `Trailer` announcement out of the
+    header map, and `http.TrailerPrefix` keys are never written into the header block -/
+def lines (h : Hdrs) : Hdrs :=
+  h.filter (fun kv => !kv.2.isEmpty && kv.1 != kTrailer && !startsWith trailerPrefix kv.1)
 
 def obsMatchesPlain (m : Base × List WOut) (o : Option ObsR) : Bool :=
   match o with
   | none => m.1.panicked
-  | some r => !m.1.panicked && m.1.resp.status == r.obs.status && heq (lines m.1.resp.hdrs) r.obs.hdrs &&
+  | some r => !m.1.panicked && m.1.resp.status == r.obs.status && heq (lines m.1.resp.hdrs) (lines r.obs.hdrs) &&
       r.obs.decoded == some m.1.resp.body && outsMatch m.2 r.outs
 
 def obsMatchesWith (m : WithResp) (o : Option ObsR) : Bool :=
   match o with
   | none => m.panicked
-  | some r => !m.panicked && m.resp.status == r.obs.status && heq (lines m.resp.hdrs) r.obs.hdrs &&
+  | some r => !m.panicked && m.resp.status == r.obs.status && heq (lines m.resp.hdrs) (lines r.obs.hdrs) &&
       r.obs.decoded == m.decoded && outsMatch m.outs r.outs
 
 def showWith (m : WithResp) : String :=
@@ -135,14 +140,21 @@ def step (line : String) : String :=
       let sn := sniffOf c.sniffTab
       let mp := runPlain sn c.pre c.ops
       let mw := if c.asis then runWithAsIs sn c.cfg c.path c.ae c.ops else runWith sn c.cfg c.path c.ae c.pre c.ops
-      let mi := obsMatchesPlain mp op && obsMatchesWith mw ow
+      -- trailers (the as-shipped model does not have them)
+      let trOK := c.asis || (match op, ow with
+        | some p, some w =>
+          heq (lines ((runOps (plainStep sn) { live := c.pre } c.ops).1.trailersAtFinish sn false)) p.obs.trailers &&
+          heq (lines (withTrailers sn c.cfg c.path c.ae c.pre c.ops w.wireBig)) w.obs.trailers
+        | _, _ => true)
+      let mi := obsMatchesPlain mp op && obsMatchesWith mw ow && trOK
       -- the oracle, on what the implementation did
       let s := match op, ow with
         | some p, some w =>
           transparentObs p.obs w.obs && encodingOK c.ae p.obs w.obs && writeContract (writeLens c.ops) w.outs
         | none, _ => true      -- the program is outside the domain (it makes the bare writer panic)
         | some _, none => false
-      let d := if !s && panicMidstream c.ops then "panic-midstream" else "-"
+      let d := if !s && panicMidstream c.ops then "panic-midstream"
+        else if !s && prefixTrailerUnannounced c.ops then "prefix-trailer-unannounced" else "-"
       verdict id mi s d (String.ofList ((showWith mw).toList.map (fun c => if c == ' ' then '_' else c)))
     | _, _ => s!"{id} bad-case"
 
